@@ -595,7 +595,37 @@ impl Host for BridgeHost {
 /// corrupted length / tag fields.
 pub fn mutate(rng: &mut StdRng, seed: &[u8]) -> Vec<u8> {
     let mut b = seed.to_vec();
-    match rng.random_range(0..8) {
+    match rng.random_range(0..10) {
+        8 => {
+            // a long string of multi-byte characters where something else is expected: as a JSON string in
+            // place of the whole input (an unknown variant / a wrong type, quoted back in the error), or as the
+            // bytes of a length-prefixed string (bincode) -- error paths that copy or cut input text
+            let chars = ["\u{20ac}", "\u{e9}", "\u{65e5}\u{672c}", "\u{1f980}", "a\u{20ac}"];
+            let unit = chars[rng.random_range(0..chars.len())];
+            let n = rng.random_range(40..400);
+            let text: String = std::iter::repeat(unit).take(n).collect();
+            if rng.random::<bool>() {
+                format!("\"{text}\"").into_bytes()
+            } else {
+                let mut v = (text.len() as u64).to_le_bytes().to_vec();
+                v.extend_from_slice(text.as_bytes());
+                // keep whatever came first in the seed (a variant tag), then the string
+                let keep = rng.random_range(0..=b.len().min(8));
+                let mut out = b[..keep].to_vec();
+                out.extend(v);
+                out
+            }
+        }
+        9 => {
+            // a JSON object / variant with such a string as its key, or as the value of the first field
+            let unit = ["\u{20ac}", "\u{e9}x", "\u{1f980}"][rng.random_range(0..3)];
+            let text: String = std::iter::repeat(unit).take(rng.random_range(60..300)).collect();
+            match rng.random_range(0..3) {
+                0 => format!("{{\"{text}\":1}}").into_bytes(),
+                1 => format!("{{\"Run\":\"{text}\"}}").into_bytes(),
+                _ => format!("[\"{text}\"]").into_bytes(),
+            }
+        }
         0 => (0..rng.random_range(0..40)).map(|_| rng.random()).collect(),
         1 => {
             let n = if b.is_empty() { 0 } else { rng.random_range(0..b.len()) };
